@@ -129,6 +129,7 @@ func init() {
 	specsFor["C12"] = c12Specs
 	checks["C12"] = func(c *Ctx) *Result {
 		r := runSpecs(c, c12Specs(c.Tier))
+		runLongChainPrunes(c, r, []Oracle{oracleReach()}, []Cfg{defaultCfg, {Fast: false, Cache: 3}})
 		r.Assumptions = []string{"crash-free histories, synchronous pruning; the raw storage is decoded by the independent codec (check/ref/codec.go)"}
 		return r
 	}
